@@ -104,7 +104,7 @@ CHECKS = {
     "C20": {
         "level_text": "Exploration by enumeration of the parameter grid named in the statement (boundary values of every id / cost / POS setting for every provider type and for inhibited pairs, on square and non-square matrices); every configuration is loaded by the real code under a panic monitor, the outcome is compared with the specification, accepted configurations are exercised under the matrix bounds hook in a debug-assertion and a release build.",
         "design_ref": "DESIGN.md 6/C20",
-        "level_note": "The grid is complete for the listed values; the outer quantifier (matrix sizes, other JSON shapes) is a finite sample. D1/D3 are known findings (the strict fix breaks three existing unit tests that use an empty grammar).",
+        "level_note": "The grid is complete for the listed values; the outer quantifier (matrix sizes, other JSON shapes) is a finite sample. D1 is a known finding (the strict comparison breaks three existing unit tests that use an empty grammar); D3 was repaired.",
         "technique": "enumerated configuration grid with expected-outcome oracle + bounds hook H2 + panic/exit-status monitor",
     },
 }
